@@ -29,7 +29,7 @@ def rich_sessions(ctx, salt, n, **kw):
     a kind of input added for one property is seen by the checks of all the others."""
     for k in range(n):
         opts = dict(nconn=(1, 3), nmsg=(15, 45), junk=0.1, cmds=0.0, core=None, unresolved=0.05, titles=0.12, zero_start=0.2,
-                    matcher_depth=k % 3)
+                    matcher_depth=k % 3, back=(0.06 if k % 2 else 0.0))
         opts.update(kw)
         g = gen.SessionGen(ctx.seed * salt + 7 * k + 3, **opts)
         yield g.session(), {'dialect': ctx.rnd.choice(['old', 'new']), 'mark': ctx.rnd.choice(['.', ','])}, 'rich'
